@@ -20,4 +20,32 @@ structure Item where
 def find (sh : List Item) (p : Item → Bool) : Option Nat := sh.findIdx? p
 
 
+/-- the function is ONE critical section of the mutex `mu` (texts `mu.Lock`, `mu.Unlock`): it begins
+with `mu.Lock()` and `defer mu.Unlock()` and mentions no other locking of `mu` (no early unlock,
+no second section, no reader lock) -/
+def oneCriticalSection (mu : String) (sh : List Item) : Bool :=
+  sh.take 2 == [⟨0, "call", mu ++ ".Lock", mu ++ ".Lock()"⟩, ⟨0, "defer", "", mu ++ ".Unlock"⟩] &&
+  (sh.filter (fun it =>
+      it.head == mu ++ ".Lock" || it.head == mu ++ ".Unlock" || it.head == mu ++ ".RLock" || it.head == mu ++ ".RUnlock" ||
+      it.head == mu ++ ".TryLock" ||
+      (it.kind == "defer" && (it.text == mu ++ ".Unlock" || it.text == mu ++ ".RUnlock" || it.text == mu ++ ".Lock")))).length == 2
+
+/-- positions of the items satisfying `p` -/
+def positions (sh : List Item) (p : Item → Bool) : List Nat :=
+  (List.range sh.length).filter fun i => match sh[i]? with | some it => p it | none => false
+
+/-- every item satisfying `p` is directly preceded by an item satisfying `q it` (at the same depth) -/
+def eachPrecededBy (sh : List Item) (p : Item → Bool) (q : Item → Item → Bool) : Bool :=
+  (positions sh p).all fun i =>
+    match i, sh[i]? with
+    | j + 1, some it => (match sh[j]? with | some prev => prev.depth == it.depth && q it prev | none => false)
+    | _, _ => false
+
+/-- every item satisfying `p` is directly followed by an item satisfying `q` (at the same depth) -/
+def eachFollowedBy (sh : List Item) (p : Item → Bool) (q : Item → Bool) : Bool :=
+  (positions sh p).all fun i =>
+    match sh[i]?, sh[i + 1]? with
+    | some it, some next => next.depth == it.depth && q next
+    | _, _ => false
+
 end Shape
